@@ -101,7 +101,13 @@ class P(Prop):
                             "speed": rng.choice([100, 720, 1500]), "curves": curves, "rated": 1000,
                             "loads": [Fraction(rng.randint(0, 20), 16) for _ in range(5)],
                             "power": power, "stored": stored, "fresh": rng.random() < 0.4,
-                            "dt": [Fraction(rng.randint(1, 40) * 15) for _ in range(nst)], "kind": rng.choice(["engine", "engine", "cogas"])})
+                            "dt": [Fraction(rng.randint(1, 40) * 15) for _ in range(nst)], "kind": rng.choice(["engine", "engine", "cogas"]),
+                            # the rule the masses are integrated with: per-interval sums, or trapezoid / Simpson on a fixed step
+                            "method": rng.choice(["sum_with_time", "sum_with_time", "trapezoid", "simpson"])})
+                if out[-1]["method"] != "sum_with_time" and out[-1]["stream"] == "mass":
+                    nst2 = rng.randint(3, 9)
+                    out[-1]["power"] = [Fraction(rng.randint(0, 80), 8) * 100 for _ in range(nst2)]
+                    out[-1]["dt"] = [Fraction(rng.randint(1, 40) * 15)] * nst2
         return out
 
     def build(self, case):
@@ -151,8 +157,13 @@ class P(Prop):
                                   power_type=TypePower.POWER_SOURCE, switchboard_id=1, eff_curve=np.array([1.0]))
             comp = COGES("coges", eng, gen)
         comp.power_output = power
-        res = get_fuel_emission_energy_balance_for_component(
-            component=comp, time_interval_s=np.array([float(x) for x in case["dt"]]), integration_method=IntegrationMethod.sum_with_time)
+        method = case.get("method", "sum_with_time")
+        if method == "sum_with_time":
+            res = get_fuel_emission_energy_balance_for_component(
+                component=comp, time_interval_s=np.array([float(x) for x in case["dt"]]), integration_method=IntegrationMethod.sum_with_time)
+        else:
+            res = get_fuel_emission_energy_balance_for_component(
+                component=comp, time_interval_s=float(case["dt"][0]), integration_method=IntegrationMethod[method])
         load = np.abs(power) / float(case["rated"])
         return {"species": species,
                 "gkwh": [[float(x) for x in np.broadcast_to(np.atleast_1d(eng.emissions_g_per_kwh(EmissionType[sp], load)), load.shape)] for sp in species],
@@ -173,6 +184,8 @@ class P(Prop):
             parts = [f"check_rates {core.coq_fl_list(g)} {core.coq_q_list(case['power'])} {core.coq_fl_list(r)}"
                      for g, r in zip(obs["gkwh"], obs["rates"])]
             return "(" + " && ".join(parts) + ")%bool"
+        if case.get("method", "sum_with_time") != "sum_with_time":
+            return "true"           # trapezoid / Simpson on a fixed step: decided by the oracle (the model has the per-interval rule)
         parts = [f"check_mass {core.coq_fl_list(g)} {core.coq_q_list(case['power'])} {core.coq_q_list(case['dt'])} {core.coq_fl(m)}"
                  for g, m in zip(obs["gkwh"], obs["mass"])]
         return "(" + " && ".join(parts) + ")%bool"
@@ -264,7 +277,16 @@ class P(Prop):
                     if abs(r[k] - want) > 1e-9 * max(1.0, abs(want)):
                         return f"species {sp} step {k}: {r[k]} g/s, but g/kWh {g[k]} x {float(p)} kW / 3600 = {want}"
             return None
+        method = case.get("method", "sum_with_time")
         for sp, g, m in zip(obs["species"], obs["gkwh"], obs["mass"]):
+            if method != "sum_with_time":
+                from scipy.integrate import simpson, trapezoid
+                rate = [g[k] * float(p) / 3600 / 1000 for k, p in enumerate(case["power"])]      # kg/s
+                want = float((trapezoid if method == "trapezoid" else simpson)(rate, dx=float(case["dt"][0])))
+                if abs(m - want) > 1e-9 * max(1.0, abs(want)):
+                    return (f"species {sp}: {m} kg, but the {method} integral of curve value x power over the fixed step "
+                            f"{float(case['dt'][0])} s is {want} kg (the rule the fuel and the energy of the same machine use)")
+                continue
             want = sum(g[k] * float(p) / 3600 * float(d) / 1000 for k, (p, d) in enumerate(zip(case["power"], case["dt"])))
             if abs(m - want) > 1e-9 * max(1.0, abs(want)):
                 return f"species {sp}: {m} kg, but curve value x brake energy summed over the intervals is {want} kg"
@@ -272,6 +294,8 @@ class P(Prop):
 
     def tags(self, case, obs):
         t = ["stream=" + case["stream"], "kind=" + case["kind"], case["tier"]]
+        if case["stream"] == "mass":
+            t.append("integration=" + case.get("method", "sum_with_time"))
         if case["stream"] == "limit":
             t.append("slow(<=130)" if float(case["speed"]) <= 130 else "power-law(>130)")
         else:
